@@ -19,6 +19,7 @@ import (
 	"github.com/zmap/zcrypto/x509"
 	"github.com/zmap/zlint/v3"
 	"github.com/zmap/zlint/v3/lint"
+	"github.com/zmap/zlint/v3/util"
 )
 
 func init() {
@@ -513,9 +514,23 @@ func init() {
 				break
 			}
 		}
+		// names under many different top-level domains (per-domain state that is filled on first use)
+		{
+			m := util.VerifTLDMap()
+			keys := sortedKeys(m)
+			for i := 0; i < len(keys) && i < 60*25; i += 25 {
+				t := leafTemplate()
+				t.Subject.CommonName = "www.example." + keys[i]
+				t.DNSNames = []string{"www.example." + keys[i], "example." + keys[(i+7)%len(keys)]}
+				t.OCSPServer = []string{"http://ocsp.example." + keys[(i+3)%len(keys)] + "/"}
+				if der, c, err := issue(t, nil); err == nil {
+					sel = append(sel, CorpusCert{"tld-" + keys[i], der, c})
+				}
+			}
+		}
 		// several copies of every object, so that many goroutines reach the same tables in the same instant
 		base := sel
-		for k := 0; k < 7; k++ {
+		for k := 0; k < 3; k++ {
 			sel = append(sel, base...)
 		}
 		res := make([]string, len(sel))
